@@ -1,6 +1,7 @@
 import Labella.Driver.Parse
 import Labella.Model.LayoutSpec
 import Labella.Model.EngineT
+import Labella.Model.Vpsc
 /-! driver commands `layer` and `force` (C01–C04, C06) -/
 namespace Labella.Driver
 open Labella Labella.Parse Labella.Layout
@@ -17,6 +18,20 @@ def okStr (b : Bool) : String := if b then "ok" else "fail"
 
 def allClose (tol : Rat) (a b : List Rat) : Bool :=
   a.length == b.length && (a.zip b).all (fun p => decide (ratAbs (p.1 - p.2) ≤ tol))
+
+/-- the instance `removeOverlap.py` hands to `vpsc.Solver` for the sorted items `its`: variables `[leftWall] ++ items ++ [rightWall]`
+(weights 1 / wall weight), constraints in creation order (neighbour gaps, then the left wall's, then the right wall's), solved by the
+transliterated GENERAL solver; returns the items' positions (walls dropped), `none` if fuel ran out -/
+def vpscLayer (o : ROpts) (its : List LItem) : Option (List Rat) :=
+  let nl := (leftWall o).length
+  let n := its.length
+  let vars : List (Rat × Rat × Rat) :=
+    (leftWall o).map (fun w => (w.t, w.w, 1)) ++ its.map (fun i => (i.target, 1, 1)) ++ (rightWall o).map (fun w => (w.t, w.w, 1))
+  let inner : List (Nat × Nat × Rat) := ((List.range (n - 1)).zip (gaps o its)).map (fun p => (nl + p.1, nl + p.1 + 1, p.2))
+  let lw : List (Nat × Nat × Rat) := (leftGap o its).map (fun g => (0, nl, g))
+  let rw : List (Nat × Nat × Rat) := (rightGap o its).map (fun g => (nl + n - 1, nl + n, g))
+  let r := Vpsc.solve 400 (200 * (n + 4) + 1000) (Vpsc.init vars (inner ++ lw ++ rw))
+  if r.1.err then none else some (((Vpsc.positions r.1).drop nl).take n)
 
 /-- `layer|mode|minPos|maxPos|ns|ls|items|order|pos|xs` -/
 def layerCmd (f : List String) : Option String :=
@@ -54,7 +69,13 @@ def layerCmd (f : List String) : Option String :=
     let mdelta := displacement MX / refWallWeight
     let mOK := sepAdjB o (1 + eps) ML && sepAdjB o eps MX
     let mOK3 := !(fitsB o mits) || insideB o (mdelta + eps * (mits.length + 2 : Nat)) MX
-    some s!"layer order={okStr orderOK} pos={okStr posOK} xs={okStr xsOK} c01={okStr c01} c01x={okStr c01x} pairs={pairsStr} c02={if inDomain then okStr c02 else "na"} c03={okStr c03} fits={if fits then 1 else 0} model={okStr mOK} model3={okStr mOK3} blocks={(m.xs.eraseDups).length}/{m.xs.length}"
+    -- model against model: the chain (pool-adjacent-violators) model used by the C01–C03 theorems and the transliterated general solver
+    -- (the code path the implementation really takes) give the same unrounded positions on the instance removeOverlap builds
+    let vp := if mits.isEmpty || decide (60 < mits.length) then "na" else
+      (match vpscLayer o mits with
+       | none => "na"
+       | some v => okStr (v == m.xs))
+    some s!"layer vpsc={vp} order={okStr orderOK} pos={okStr posOK} xs={okStr xsOK} c01={okStr c01} c01x={okStr c01x} pairs={pairsStr} c02={if inDomain then okStr c02 else "na"} c03={okStr c03} fits={if fits then 1 else 0} model={okStr mOK} model3={okStr mOK3} blocks={(m.xs.eraseDups).length}/{m.xs.length}"
   | _ => none
 
 def parseAlg (s : String) : Option Alg :=
